@@ -121,12 +121,37 @@ async fn run_sequence(ty: Ty, seq: &[u8]) -> Vec<(String, String)> {
                 }
             }
             6 => {
-                let unknown = ever.iter().find(|e| !model.contains(e)).cloned().unwrap_or(Endpoint::Tcp(zeromq::Host::Ipv4("127.0.0.1".parse().unwrap()), 1));
-                match tokio::time::timeout(e4::HORIZON, sock.unbind(unknown.clone())).await {
-                    Ok(Err(ZmqError::NoSuchBind(_))) => {}
-                    Ok(Ok(())) => viol.push(("unbind-unknown/accepted".into(), format!("{}: unbind({}) of an endpoint that is not bound succeeded", at, unknown))),
-                    Ok(Err(e)) => viol.push(("unbind-unknown/wrong-error".into(), format!("{}: unbind({}) failed with {} instead of NoSuchBind", at, unknown, e))),
-                    Err(_) => viol.push(("unbind/hangs".into(), format!("{}: unbind of an unknown endpoint did not return", at))),
+                // endpoints that are NOT bound: one that was bound earlier (or a far miss), and near misses of every
+                // bound endpoint - same port under another host name or address, same ipc path with a suffix
+                let mut unknowns: Vec<Endpoint> = vec![ever.iter().find(|e| !model.contains(e)).cloned().unwrap_or(Endpoint::Tcp(zeromq::Host::Ipv4("127.0.0.1".parse().unwrap()), 1))];
+                for ep in model.clone() {
+                    match &ep {
+                        Endpoint::Tcp(_, port) => {
+                            for host in ["localhost", "no-such-host.invalid", "127.0.0.2", "[::1]", "127.0.0.1", "192.0.2.7"] {
+                                if let Ok(e) = format!("tcp://{}:{}", host, port).parse::<Endpoint>() {
+                                    unknowns.push(e);
+                                }
+                            }
+                        }
+                        Endpoint::Ipc(Some(p)) => {
+                            if let Ok(e) = format!("ipc://{}.x", p.display()).parse::<Endpoint>() {
+                                unknowns.push(e);
+                            }
+                        }
+                        _ => {}
+                    }
+                }
+                unknowns.retain(|u| !model.contains(u));
+                for unknown in unknowns {
+                    match tokio::time::timeout(e4::HORIZON, sock.unbind(unknown.clone())).await {
+                        Ok(Err(ZmqError::NoSuchBind(_))) => {}
+                        Ok(Ok(())) => {
+                            viol.push(("unbind-unknown/accepted".into(), format!("{}: unbind({}) of an endpoint that is not bound succeeded (bound: {:?})", at, unknown, model.iter().map(|e| e.to_string()).collect::<Vec<_>>())));
+                            break;
+                        }
+                        Ok(Err(e)) => viol.push(("unbind-unknown/wrong-error".into(), format!("{}: unbind({}) failed with {} instead of NoSuchBind", at, unknown, e))),
+                        Err(_) => viol.push(("unbind/hangs".into(), format!("{}: unbind of an unknown endpoint did not return", at))),
+                    }
                 }
             }
             7 => {
@@ -350,7 +375,9 @@ pub fn run(tier: Tier, replay: Option<String>) -> i32 {
         e4::cleanup_ipc_dir();
         results = Some(out);
     }
-    let results = results.unwrap();
+    let mut results = results.unwrap();
+    // simplest (shortest, earliest) case first: the first finding of a class is the one that is kept
+    results.sort_by_key(|r| r["case"].as_u64().unwrap_or(u64::MAX));
     let mut done = 0u64;
     let mut lens: std::collections::BTreeMap<usize, u64> = Default::default();
     let mut skipped = 0u64;
@@ -387,7 +414,7 @@ pub fn run(tier: Tier, replay: Option<String>) -> i32 {
     ck.cov("sequences_by_length", json!(lens.iter().map(|(k, v)| (k.to_string(), *v)).collect::<std::collections::BTreeMap<_, _>>()));
     ck.cov("isolated_network_namespaces", isolated);
     ck.cov("exhaustive", skipped == 0);
-    ck.cov("rule", format!("every sequence of length <= {} over the 11 operations {:?} (operations that need a bound endpoint or an established client are omitted where they would be no-ops; the last operation - 150 clients that close in mid-handshake one after the other, then a well-behaved one - at most once and in sequences of length <= {}) on a real REP and a real PULL socket on the real tokio runtime: {} sequences; distinct by construction; non-trivial = contains at least one bind. After EVERY operation: return value as the reference model says (wildcard port resolved non-zero, duplicate bind fails and changes nothing, unbind of anything not bound fails with NoSuchBind), binds() equals the model's set, every bound endpoint accepts a fresh connection by its text form and completes a message exchange, every endpoint not bound (any more) refuses at once, connections established earlier keep working across later unbinds. Each worker process runs in its own network namespace so that no other process can take a port this check expects to be free.", tier.pick(4, 5), OPS, tier.pick(3, 4), cases.len()));
+    ck.cov("rule", format!("every sequence of length <= {} over the 11 operations {:?} (operations that need a bound endpoint or an established client are omitted where they would be no-ops; the last operation - 150 clients that close in mid-handshake one after the other, then a well-behaved one - at most once and in sequences of length <= {}) on a real REP and a real PULL socket on the real tokio runtime: {} sequences; distinct by construction; non-trivial = contains at least one bind. After EVERY operation: return value as the reference model says (wildcard port resolved non-zero, duplicate bind fails and changes nothing, unbind of anything not bound - an endpoint bound earlier, a far miss, and near misses of every bound endpoint (same port under another host name or address, same ipc path with a suffix) - fails with NoSuchBind and changes nothing), binds() equals the model's set, every bound endpoint accepts a fresh connection by its text form and completes a message exchange, every endpoint not bound (any more) refuses at once, connections established earlier keep working across later unbinds. Each worker process runs in its own network namespace so that no other process can take a port this check expects to be free.", tier.pick(4, 5), OPS, tier.pick(3, 4), cases.len()));
     ck.sample(json!({"type":"REP","ops":["bind-tcp4","connect-in-each","unbind-oldest","exchange-established"]}));
     ck.assume("OS schedules are not enumerated; conditions the statement ties to a return are tested immediately after the return");
     ck.conclude()
